@@ -58,7 +58,9 @@ def encode(classes, cart):
                     name = ctx.fresh_atom("thetaOf")
                     ctx.ranges[name] = (Fr(0), Fr(1))
                     ctx.atomval[name] = (lambda env, Z=Z, M=M: S._mp().acos(Z.num(env) / M.num(env)))
-                    ctx.memo[key] = Ang(Z * M.recip(), rho * M.recip(), {name: Fr(1)})
+                    th = Ang(Z * M.recip(), rho * M.recip(), {name: Fr(1)})
+                    th.tanhalf = rho * (M + Z).recip()
+                    ctx.memo[key] = th
                 out.append(ctx.memo[key])
             else:
                 out.append(Lg([(Fr(1), (Z + M) * rho.recip())]))
